@@ -90,7 +90,8 @@ LEVEL_TEXT = ('Machine-checked theorems for all configurations, requests and his
               'request on; end to end: in any interleaving of clients with token-showing / rotating view bodies and a setting that '
               'changes from step to step, each client observes exactly the declarative gate on (its request with the token it '
               'then holds, the setting of that moment) -- C12_e2e_gate), the aslist model yields non-empty whitespace-free patterns '
-              'that are exactly the non-whitespace characters of the setting in order, views registered through add_exception_view / add_notfound_view / add_forbidden_view are never '
+              'that are exactly the non-whitespace characters of the setting in order and are the maximal whitespace-free runs (a string '
+              'laid out as ws t0 ws+ t1 ws+ ... ws splits into exactly [t0; t1; ...]), views registered through add_exception_view / add_notfound_view / add_forbidden_view are never '
               'checked and an exception view is checked only when its own registration says require_csrf=True, '
               'the documented positional order of set_default_csrf_options is the signature order (fact), '
               'the urlsplit fragment extracts scheme/authority of scheme://authority[/...] and raises exactly on '
